@@ -198,7 +198,7 @@ def closed_midi_roundtrip():
                 n += 1
                 if m.pitch_spelling_to_midi_pitch(step, alter, octave) != S.midi_of(step, alter, octave):
                     return False, n, {"input": [step, alter, octave], "what": "wrong midi"}
-                if m.step2pc(step, alter) != (S.PC[step] + alter) % 12 and m.step2pc(step, alter) != S.PC[step] + alter:
+                if m.step2pc(step, alter) != (S.PC[step] + alter) % 12:  # documented: a pitch class, an integer in [0, 11] (C flat is 11, B sharp is 0)
                     return False, n, {"input": [step, alter], "what": "step2pc=%r" % m.step2pc(step, alter)}
     return True, n, ""
 
